@@ -10,6 +10,7 @@
    (ok NAME ATTRS DESC)         side conditions name_ok wiki_attr_ok desc_ok attr_ok
    (tsvw STRIP NAME ATTRS DESC) tsv row, followed by tsv_read_row of it
    (tsvr HEDID NAME ATTRSTR DESC)
+   (tsvfiles (0|1 x10))         section files a TSV save writes
    (xmld S)                     description part of xml2schema._parse_node
    (tsve STRIP INCL NAME ATTRS DESC)  Schema2DF._write_entry row
    (trav LIB WS MERGED TAGS UNITS SECTIONS)
@@ -93,6 +94,12 @@ let () = main_loop (fun x ->
       | Exn e -> L [A "exn"; exn_sx e]
       | Ok ((n, at), de) -> L [A "ok"; str_sx n; attrs_sx at; desc_sx de]) in
     L [str_sx r.r_hed_id; str_sx r.r_name; str_sx r.r_attributes; desc_sx r.r_description; back]
+  | L [A "tsvfiles"; flags] ->
+    (* files written for tables whose emptiness is given per suffix (1 = has rows) *)
+    let fl = List.map sx_bool (sx_list flags) in
+    let tbl = List.combine df_suffixes fl in
+    let rows_of k = (match List.find_opt (fun (s, _) -> s = k) tbl with Some (_, true) -> [[O]] | _ -> []) in
+    L (List.map str_sx (files_written false (output_tables rows_of)))
   | L [A "xmld"; t] -> desc_sx (xml_read_desc fixed (sx_str t))
   | L [A "tsve"; st; incl; nm; a; d] ->
     let r = tsv_write_entry_row fixed (sx_bool st) (sx_bool incl) (sx_str nm) (sx_attrs a) (sx_desc d) in
